@@ -749,6 +749,8 @@ func (c *Ctx) runMeshRules(prefix string, pkgShort string) {
 			isMeshMethod := top.Signature.Recv() != nil && strings.HasSuffix(top.Signature.Recv().Type().String(), ".Mesh")
 			if isMeshMethod && allowed[top.Name()] {
 				c.ok(prefix+".WRITERS", key, acc.ins.Pos(), "faces is modified by a mutator that also maintains the vertex index")
+			} else if other := indexOfOtherMesh(top, v2f, acc.m); other {
+				c.bad(prefix+".WRITERS", key, acc.ins.Pos(), "Mesh.faces of one mesh is modified while the only vertex index this function looks at or patches belongs to a different mesh: the index of the modified mesh is not kept in step")
 			} else if touchesIndex(top, v2f) {
 				c.ok(prefix+".WRITERS", key, acc.ins.Pos(), "the same function patches or resets the vertex index (removeFaceFromVertex / clearVertexToFace / index operations)")
 			} else {
@@ -878,6 +880,51 @@ func touchesIndex(fn *ssa.Function, v2f *types.Var) bool {
 	}
 	visit(fn)
 	return found
+}
+
+// indexOfOtherMesh: the faces map that is written belongs to one parameter of
+// fn, and every index operation of fn (direct, not in closures) is applied to a
+// different parameter.
+func indexOfOtherMesh(fn *ssa.Function, v2f *types.Var, facesMap ssa.Value) bool {
+	ld, ok := facesMap.(*ssa.UnOp)
+	if !ok {
+		return false
+	}
+	fa, ok := ld.X.(*ssa.FieldAddr)
+	if !ok {
+		return false
+	}
+	owner, ok := fa.X.(*ssa.Parameter)
+	if !ok {
+		return false
+	}
+	same, other := false, false
+	for _, b := range fn.Blocks {
+		for _, ins := range b.Instrs {
+			var recv ssa.Value
+			switch x := ins.(type) {
+			case *ssa.Call:
+				for _, n := range []string{"removeFaceFromVertex", "clearVertexToFace", "getVertexToFaceOrNil", "getVertexToFace"} {
+					if callsNamed(x, n) && len(x.Call.Args) > 0 {
+						recv = x.Call.Args[0]
+					}
+				}
+			case *ssa.Store:
+				if fa2, ok := x.Addr.(*ssa.FieldAddr); ok && fieldOf(fa2) == v2f {
+					recv = fa2.X
+				}
+			}
+			if recv == nil {
+				continue
+			}
+			if p, isP := recv.(*ssa.Parameter); isP && p != owner {
+				other = true
+			} else {
+				same = true
+			}
+		}
+	}
+	return other && !same
 }
 
 func derivesFromIndex(v ssa.Value, depth int) bool {
